@@ -216,11 +216,13 @@ Definition c_hident (zero_flags : list bool) (hb : list (list (list dy))) : N :=
 Definition OpsD : Ops dy := {|
   zero := d0; one := d1; add := dadd; sub := dsub; mul := dmul; div := fun a _ => a;
   neg := dneg; abs := dabs; sqrt := fun a => a; ltb := dltb; leb := dleb; eqb := deqb; ofZ := dofZ |}.
-Inductive mapop : Set := OpU (idx : list N) (v : list dy) | OpS (idx : list N) (c : dy).
+Inductive mapop : Set :=
+| OpU (idx : list N) (v : list dy) | OpS (idx : list N) (c : dy) | OpO (idx : list N) (c : dy) (sg : list Z).
 Definition apply_mapop (perm : list nat) (kl : list dy * list dy) (op : mapop) : list dy * list dy :=
   match op with
   | OpU idx v => update_values kl perm (nats idx) v
   | OpS idx c => scale_values OpsD kl perm (nats idx) c
+  | OpO idx c sg => offset_values OpsD kl perm (nats idx) c sg
   end.
 Definition c_mapops (k0 l0 : list dy) (perm : list N) (ops : list mapop) (k1 l1 : list dy) : N :=
   let kl := fold_left (apply_mapop (nats perm)) ops (k0, l0) in
